@@ -206,6 +206,7 @@ void oracle_purge_check(const Op& op) {
   size_t checked = 0;
   for (auto& w : H.watch) {
     if (w.dropped) continue;
+    if (os_is_hugetlb((uint64_t)w.p)) continue;      // pinned memory (explicit huge OS pages) is never purged
     const bool huge = w.usable > (16u << 20);
     // preconditions of the statement: unused for longer than the delay (op.c ms) and op.b rounds of ordinary activity since
     if (clock_now_ns() / 1000000ull - w.t_ms < op.c || H.activity_rounds - w.rounds_at_free < op.b) continue;
